@@ -49,6 +49,10 @@ CHECKS = {
          "For each of the six parsers (HTTP request, HTTP response, WebSocket frame, WebSocket message via recv and recv_nonblocking, JSON, configuration): every string of <=5 (6) symbols over a 10-18 symbol protocol alphabet (~1.1*10^5 (1.1*10^6) each, config strings also inside a `server {` section and in value position), every prefix of every seed message, every single-edit mutant of every seed (delete, duplicate, replace by each alphabet symbol), a 2-byte character, a 4-byte character and invalid UTF-8 inserted at every position, every length field (Content-Length, chunk size, 16/64-bit frame lengths) replaced by boundary and huge values, nesting to 100000 levels, 2000 header lines, 200 KB lines; each delivered whole and byte-by-byte. Oracle per case: the call returns (panic caught and classified by source file), the worker process survives (abort, SIGSEGV/stack overflow, exit by the allocator cap and a 20 s no-progress watchdog are attributed to the exact case through a shared progress record and the worker is restarted after it), at most 100000 reads at end of input, and peak live allocation <= 64*|input| + 1 MiB.",
          "Trusted: counting GlobalAlloc wrapper (single allocation above 16x the bound ends the worker with exit 77 instead of being attempted). JSON and config parsers take &str so non-UTF-8 input cannot reach them. Random byte strings are deliberately not used (sampling).",
          "DESIGN.md §3 C03"),
+ "C01": ("E2-enum", "bounded-exhaustive enumeration of request sequences x segmentation plans x timeout placements against a reference server, plus scheduler exploration for panic isolation",
+         "The real connection handler (client_handler, obtained from the App exactly as run() hands it to the pool) serves a scripted socket. Enumerated: every single request of methods {GET,POST,PUT,DELETE,OPTIONS} x targets {routed, unrouted, CORS route, body echo, empty body, panicking} x Connection {keep-alive in 3 spellings, close, absent, list} x {HTTP/1.0, 1.1}, Content-Length bodies of 0/1/5 bytes, 8 malformed shapes (start line, header, length); all 29 x 41 ordered pairs (triples in thorough). Plans: everything in one segment, one segment per request, byte-by-byte, every single cut (all positions for singles, around every structural boundary for pairs; pairs of cuts in thorough), and with a connection timeout configured the client going silent before each request. A strict response-stream reader and a reference server decide: one response per request in order, request's version, Date in IMF-fixdate syntax, Server, the matched route's CORS headers and no others, body = handler output with exact Content-Length, every response after which the connection stays open self-delimiting, 400-then-close for malformed, 408-then-close on timeout, no response and propagated panic for the panicking handler, handler log = request list. A scheduler-explored scenario (3 connections, one to the panicking route, deviation bound 1 (2)) checks that the other connections are served normally.",
+         "Trusted: reference server model and strict reader in checks/src/props/c01.rs; scripted socket semantics (a read returns at most the current segment). Only the threaded runtime. Known findings: stray CRLF after bodies (pinned by tests), requests coalesced into one segment (read-ahead discarded).",
+         "DESIGN.md §3 C01"),
 }
 NOT_YET = {}
 
